@@ -111,10 +111,10 @@ const WORDS: &[&str] = &[
     "als", "anders", "antwoord", "functie", "zolang", "stel", "ja", "nee", "stop", "volgende", "alsof", "stelling",
     "janee", "a", "b_1", "_x", "élan", "naïef", "日本", "x9", "Ωmega", "ja_", "stopt", "nee2",
 ];
-const OPS: &[&str] = &["==", "!=", "<=", ">=", "&&", "||", "=", "!", "<", ">", "/", ";", ",", ".", "(", ")", "{", "}",
+const OPS: &[&str] = &["/*", "*/", "==", "!=", "<=", ">=", "&&", "||", "=", "!", "<", ">", "/", ";", ",", ".", "(", ")", "{", "}",
     "[", "]", "-", "+", "*", "^", "%"];
 const NUMS: &[&str] = &["0", "7", "42", "1.5", "3.", "007", "10.25", "1.2.3"];
-const STRS: &[&str] = &["\"\"", "\"a\"", "\"a b\"", "\"é😀\"", "\"x\\\"y\"", "\"p\\\\\"", "\"\\n\\t\"", "\"{}\"", "\"//geen commentaar\""];
+const STRS: &[&str] = &["\"a\r\nb\"", "\"x\ny\"", "\"\"", "\"a\"", "\"a b\"", "\"é😀\"", "\"x\\\"y\"", "\"p\\\\\"", "\"\\n\\t\"", "\"{}\"", "\"//geen commentaar\""];
 const SEPS: &[&str] = &["", " ", "\n", "\t", "\u{b}", "\u{c}", "\r", "\u{85}", "\u{200e}", "\u{200f}", "\u{2028}", "\u{2029}",
     " // c\n", "//\n"];
 const ILLEGAL: &[&str] = &["№", "&", "|", "#", "@", "\"open", "٣", "~", "$", "\u{a0}", "\u{3000}", "\u{2003}", "\u{1680}",
@@ -160,12 +160,14 @@ pub fn lex_inputs(seed: u64, n: u64, enumerate: bool) -> Vec<String> {
             out.push(format!("\"{}\"", crate::ast::escape_str(&c)));
         }
         // raw literals (not produced by the encoder): every raw content up to length 3 over the same alphabet
+        // plus a raw carriage return and a raw line feed (a text may contain them as written)
+        let ralpha: [char; 9] = ['a', '"', '\\', 'n', 't', '{', 'é', '\r', '\n'];
         let mut raws: Vec<String> = vec![String::new()];
         let mut layer: Vec<String> = vec![String::new()];
         for _ in 0..3 {
             let mut next = Vec::new();
             for c in &layer {
-                for ch in alpha {
+                for ch in ralpha {
                     let mut s = c.clone();
                     s.push(ch);
                     next.push(s);
